@@ -513,14 +513,15 @@ fn run_probe(case: &Case, p: &Prepared, probe: &Probe, ctx: &mut Ctx) -> Option<
             let kindname = if matches!(probe, Probe::Damage { .. }) { "flip" } else { "random" };
             ctx.agg.count(&format!("fault.{kindname}_bytes"));
             ctx.eval();
-            match read_value(&p.schema, &bytes, &SourcePlan::perfect()) {
+            let node = match probe {
+                Probe::Damage { edits } => kind_at(&p.leaf, edits.first().map(|e| e.0).unwrap_or(0)),
+                _ => "random",
+            };
+            // what the generic decoder says of these bytes: Ok(value, consumed) or Err
+            let generic: Result<(Value, usize), String> = match read_value(&p.schema, &bytes, &SourcePlan::perfect()) {
                 Err(panic) => return Some(fail("panic", "read_value", format!("panic on damaged bytes: {panic}"), probe)),
                 Ok(o) => {
                     ctx.steps(o.calls);
-                    let node = match probe {
-                        Probe::Damage { edits } => kind_at(&p.leaf, edits.first().map(|e| e.0).unwrap_or(0)),
-                        _ => "random",
-                    };
                     ctx.agg.state(format!("{node}|read_value|{kindname}|{}", if o.res.is_ok() { "ok" } else { "err" }));
                     if let Ok(v) = &o.res {
                         ctx.agg.count("probe.damaged_bytes_decoded_ok");
@@ -528,11 +529,90 @@ fn run_probe(case: &Case, p: &Prepared, probe: &Probe, ctx: &mut Ctx) -> Option<
                             return Some(f);
                         }
                     }
+                    o.res.map(|v| (v, o.pos))
+                }
+            };
+            // the schema-aware deserializer must give the same answer to "is this a datum": into the
+            // self-describing sink, and into the corpus type where the case has one
+            let mut others: Vec<(&str, Result<(Option<Value>, usize), String>)> = vec![];
+            ctx.eval();
+            match read_any(&p.schema, &bytes, &SourcePlan::perfect()) {
+                Err(panic) => return Some(fail("panic", "read_deser", format!("panic on damaged bytes: {panic}"), probe)),
+                Ok(o) => others.push(("read_deser", o.res.map(|_| (None, o.pos)))),
+            }
+            if let Some(r) = typed(&bytes, &SourcePlan::perfect()) {
+                ctx.eval();
+                match r {
+                    Err(panic) => return Some(fail("panic", "read_deser_typed", format!("panic on damaged bytes: {panic}"), probe)),
+                    Ok(o) => others.push(("read_deser_typed", o.res.map(|v| (Some(v), o.pos)))),
                 }
             }
-            ctx.eval();
-            if let Err(panic) = read_any(&p.schema, &bytes, &SourcePlan::perfect()) {
-                return Some(fail("panic", "read_deser", format!("panic on damaged bytes: {panic}"), probe));
+            let sig = |dec: &str| format!("C06 decoders-disagree decoder={dec} on=damaged-bytes");
+            let pj = serde_json::to_string(probe).unwrap();
+            // where the case has a reference schema: is there, structurally (logical types as their
+            // underlying types), a datum at the start of these bytes, and how long is it
+            // (unknown, and not judged, when the reference gives up on a hostile count)
+            let structural: Option<Option<usize>> = p.rs.as_ref().and_then(|(rs, defs)| {
+                let mut budget = 200_000i64;
+                let r = refimpl::decode_structural(rs, defs, &bytes, &mut budget);
+                if budget < 0 {
+                    ctx.agg.count("probe.damaged_bytes_reference_budget_exhausted");
+                    None
+                } else {
+                    Some(r)
+                }
+            });
+            if let Some(st) = &structural {
+                ctx.agg.count(if st.is_some() { "probe.damaged_bytes_still_a_datum_structurally" } else { "probe.damaged_bytes_no_datum_structurally" });
+                if let Ok((gv, gpos)) = &generic {
+                    if *st != Some(*gpos) {
+                        return Some(Failure::new(
+                            "malformed-accepted",
+                            format!("C06 malformed-accepted decoder=read_value node={node}"),
+                            format!("{} damaged/random bytes: read_value returned Ok({}) consuming {gpos}, but the bytes {} [probe={pj}]", bytes.len(), crate::gen::describe_value(gv),
+                                match st { Some(k) => format!("hold a datum of {k} byte(s)"), None => "do not start with a well-formed datum of this schema".to_string() }),
+                        ));
+                    }
+                }
+            }
+            for (dec, r) in others {
+                ctx.agg.state(format!("{node}|{dec}|{kindname}|{}", if r.is_ok() { "ok" } else { "err" }));
+                if let (Some(st), Ok((tv, tpos))) = (&structural, &r) {
+                    if *st != Some(*tpos) {
+                        return Some(Failure::new(
+                            "malformed-accepted",
+                            format!("C06 malformed-accepted decoder={dec} node={node}"),
+                            format!("{} damaged/random bytes: {dec} returned Ok({}) consuming {tpos}, but the bytes {} [probe={pj}]", bytes.len(), tv.as_ref().map(crate::gen::describe_value).unwrap_or_else(|| "any".into()),
+                                match st { Some(k) => format!("hold a datum of {k} byte(s)"), None => "do not start with a well-formed datum of this schema".to_string() }),
+                        ));
+                    }
+                }
+                match (&generic, &r) {
+                    (Err(_), Err(_)) => ctx.agg.count("probe.damaged_bytes_rejected_by_both_decoders"),
+                    (Ok((gv, gpos)), Ok((tv, tpos))) => {
+                        ctx.agg.count("probe.damaged_bytes_accepted_by_both_decoders");
+                        if gpos != tpos {
+                            return Some(Failure::new("decoders-disagree", sig(dec), format!("{} damaged/random bytes: read_value took {gpos} byte(s) as the datum, {dec} took {tpos} [probe={pj}]", bytes.len())));
+                        }
+                        if let Some(tv) = tv {
+                            if !avro_eq(tv, gv) {
+                                return Some(Failure::new("decoders-disagree", sig(dec), format!("the same {gpos} byte(s) decode to {} by read_value and to {} by {dec} [probe={pj}]", crate::gen::describe_value(gv), crate::gen::describe_value(tv))));
+                            }
+                        }
+                    }
+                    // the generic decoder also applies the content rules of logical types (uuid text,
+                    // big-decimal framing); a sink that takes the underlying string or bytes does
+                    // not, so with a reference schema this direction is judged structurally (above)
+                    (Err(_), Ok(_)) if structural.is_some() => ctx.agg.count("probe.damaged_bytes_content_rule_only_in_generic_decoder"),
+                    (Err(e), Ok((tv, tpos))) => {
+                        return Some(Failure::new("decoders-disagree", sig(dec), format!("{} damaged/random bytes are no datum for read_value ({e}) but {dec} returned Ok({}) consuming {tpos} [probe={pj}]", bytes.len(), tv.as_ref().map(crate::gen::describe_value).unwrap_or_else(|| "any".into()))));
+                    }
+                    // (the self-describing sink's own step budget, on a hostile count of zero-width items)
+                    (Ok(_), Err(e)) if e.contains("visit budget exhausted") => ctx.agg.count("probe.damaged_bytes_sink_budget_exhausted"),
+                    (Ok((gv, gpos)), Err(e)) => {
+                        return Some(Failure::new("decoders-disagree", sig(dec), format!("read_value takes {gpos} of the {} damaged/random bytes as the datum {} but {dec} rejects them: {e} [probe={pj}]", bytes.len(), crate::gen::describe_value(gv))));
+                    }
+                }
             }
             None
         }
